@@ -43,9 +43,9 @@ def w(ids, conn, src, dst, rep=1, nxt=None, rec=None, noh=False, dialed=None, tr
         del e['b']
         e['st'] = dict(code=0, msg='OK')
         e['t'] = []
-    if nxt:
+    if nxt or nxt == []:       # [] = a route field that is present but empty (only a by-reference link keeps it that way)
         e['nxt'] = nxt
-    if rec:
+    if rec or rec == []:
         e['rec'] = rec
     if noh:
         e['noh'] = True
@@ -466,6 +466,20 @@ def bad_env(ids, conn, name, kind, dst, dialed=None, rec=None, nxt=None):
     return w(ids, conn, src, dst, dialed=dialed, rec=rec, nxt=nxt)
 
 
+def c17_empty_routes(rng):
+    """route fields that are present but empty - what the proxy itself leaves behind when it pops the last hop of a
+    return route - arriving over in-memory links (by reference): an envelope like any other"""
+    out = []
+    for k, (nxt, rec) in enumerate((([], None), (None, []), ([], []), ([], ['x']))):
+        for byref in (True, False):
+            ids = Ids()
+            steps = [attach('a', 1), attach('b', 2), w(ids, 1, 'a', 'b', rep=2), Q,
+                     w(ids, 1, 'a', 'b', nxt=nxt, rec=rec), Q, w(ids, 2, 'b', 'a', nxt=nxt, rec=rec), Q,
+                     w(ids, 1, 'a', 'b', rep=2), w(ids, 2, 'b', 'a'), Q]
+            out.append(scen('C17', 'empty route fields #%d (%s)' % (k, 'by reference' if byref else 'serialising'), steps, byref=byref))
+    return out
+
+
 def c17_spoof(rng, count):
     out = []
     kinds = ['attached', 'unknown', 'dialable', 'empty', 'noheader']
@@ -674,11 +688,11 @@ def c17_held(rng, count):
 
 def generate_c17(tier, rng):
     if tier == 'quick':
-        return (c17_spoof(rng, 120) + c17_roles(rng, 120) + c17_flood(rng) + c17_reattach(rng, 42) + c17_reattach_healthy(rng, 12) +
+        return (c17_empty_routes(rng) + c17_spoof(rng, 120) + c17_roles(rng, 120) + c17_flood(rng) + c17_reattach(rng, 42) + c17_reattach_healthy(rng, 12) +
                 c17_cancel(rng, 40) + c17_held(rng, 48))
     s = []
     for i in range(6):
-        s += c17_spoof(rng, 135)
+        s += c17_spoof(rng, 135) + c17_empty_routes(rng)
     s += c17_roles(rng, 2100) + c17_flood(rng) + c17_reattach(rng, 600) + c17_reattach_healthy(rng, 240) + c17_held(rng, 720)
     for i in range(9):
         s += c17_cancel(rng, 1000)
